@@ -518,7 +518,7 @@ class FDE:
                         env[nm] = Opaque('module ' + nm)
             elif isinstance(s, ast.For):
                 it = self._ev(s.iter, env, fi)
-                if isinstance(it, (dict, set)):
+                if isinstance(it, (dict, set, str, bytes)):
                     it = list(it)
                 if not isinstance(it, (list, tuple)) and type(it).__name__ not in _ITER_TYPES:
                     raise (Raised('TypeError') if it is None or isinstance(it, (int, float)) else Unsupported('for over non-concrete iterable: %s' % unparse(s.iter)))
@@ -611,7 +611,7 @@ class FDE:
                 yield from self._run_gen(s.body if self._truth(self._ev(s.test, env, fi)) else s.orelse, env, fi)
             elif isinstance(s, ast.For):
                 it = self._ev(s.iter, env, fi)
-                if isinstance(it, (dict, set)):
+                if isinstance(it, (dict, set, str, bytes)):
                     it = list(it)
                 if not isinstance(it, (list, tuple)) and type(it).__name__ not in _ITER_TYPES:
                     raise (Raised('TypeError') if it is None or isinstance(it, (int, float)) else Unsupported('for over non-concrete iterable: %s' % unparse(s.iter)))
